@@ -162,13 +162,21 @@ def validate(fam, path, res):
                             "counters": {k: r.get(k) for k in ("nfev", "njev", "nstep", "naccpt", "nrejct") if k in r}})
 
 
+# thorough: every family is recorded for several derived seeds (the random sweeps differ, the corner sweeps repeat)
+THOROUGH_SUBSEEDS = 6
+
+
 def run_families(fams, tier, seed, work):
     res = SolverRun()
     for fam in fams:
-        p = os.path.join(work, f"rec_{fam}.ndjson")
-        nwd, _ = record_family(fam, tier, seed, p)
-        res.watchdog += nwd
-        validate(fam, p, res)
+        subs = [seed] if tier == "quick" else [seed + 7919 * i for i in range(THOROUGH_SUBSEEDS)]
+        for si, sd in enumerate(subs):
+            p = os.path.join(work, f"rec_{fam}_{si}.ndjson")
+            nwd, _ = record_family(fam, tier, sd, p)
+            res.watchdog += nwd
+            validate(fam if si == 0 else f"{fam}#{si}", p, res)
+            if tier != "quick":
+                os.remove(p)
     return res
 
 
